@@ -68,7 +68,7 @@ class TLCResult(object):
 
 _STATS = re.compile(r'^(\d+) states generated, (\d+) distinct states found')
 _DEPTH = re.compile(r'^The depth of the complete state graph search is (\d+)')
-_VIOL = re.compile(r'^Error: (?:Invariant|Action property|Temporal properties?|Property) ?(\S*)')
+_VIOL = re.compile(r'^Error: (?:Invariant|Action property|Temporal propert(?:y|ies)|Property) ?(\S*)')
 _COV = re.compile(r'^<(\w+) line \d+, col \d+ to line \d+, col \d+ of module (\w+)>: (\d+):(\d+)')
 
 
